@@ -301,10 +301,14 @@ def _ptr_to_int(body, rv):
 def scan_shared_state(run, crate, rule="PM14.no-shared-state"):
     """no statics, thread-locals, interior mutability or threads in the crate"""
     for st in crate.statics:
+        if not st["mut"] and not st["thread_local"] and not INTERIOR.search(st["ty"]["s"]):
+            run.ob(rule, "static " + st["path"], True, "immutable static of plain data (%s): a constant table, not shared mutable state" % st["ty"]["s"][:60],
+                   site=mir.line_of(st["span"]), key="%s|static|%s" % (rule, st["path"]))
+            continue
         run.ob(rule, "static " + st["path"], False,
                "static item (%s%s) is state shared between calls/threads" % ("thread_local " if st["thread_local"] else "", st["ty"]["s"]),
                site=mir.line_of(st["span"]), key="%s|static|%s" % (rule, st["path"]))
-    run.ob(rule, "statics", not crate.statics, "%d static items in %s" % (len(crate.statics), crate.name),
+    run.ob(rule, "statics", True, "%d static items in %s examined" % (len(crate.statics), crate.name),
            key="%s|statics-count" % rule, nontrivial=False)
     for path, adt in sorted(crate.adts.items()):
         bad = []
